@@ -279,6 +279,8 @@ def oracle(ctx):
             if o3 != outs[0]:
                 ctx.violation('something of an earlier render is visible in a later one (A, B, A)', {'src': c['src'], 'vars': c['vars'], 'objs': c['objs']},
                               expected=outs[0], actual=o3)
+    # render-time engine arguments (translate=, target_language=, encoding=): a call must behave like the first call of a fresh instance
+    nt += render_args_sequences(ctx)
     # fresh processes, different hash seeds
     sub = cases[:ctx.budget(150, 3000)]
     per_seed = []
@@ -441,6 +443,70 @@ GATED = [
     '<span tal:switch="v"><i tal:case="v">${gate()}${v}</i></span></div>',
     '<div tal:define="a v"><i tal:repeat="item xs" tal:attributes="class repeat.item.even and \'e\' or \'o\'">${gate()}${a}${item}</i></div>',
 ]
+
+
+def _tr_upper(msgid, domain=None, mapping=None, context=None, target_language=None, default=None):
+    s = default if isinstance(default, str) else (msgid if isinstance(msgid, str) else str(msgid))
+    for k, v in (mapping or {}).items():
+        s = s.replace('${%s}' % k, str(v))
+    return 'U[%s|%s]' % (s.upper(), target_language)
+
+
+def _tr_brackets(msgid, domain=None, mapping=None, context=None, target_language=None, default=None):
+    s = default if isinstance(default, str) else (msgid if isinstance(msgid, str) else str(msgid))
+    for k, v in (mapping or {}).items():
+        s = s.replace('${%s}' % k, str(v))
+    return '<<%s|%s|%s>>' % (s, domain, target_language)
+
+
+class _Thing:
+    def __str__(self):
+        return 'thing'
+
+
+RA_TEMPLATES = ['<p i18n:translate="">Hello <b i18n:name="who">${a}</b>!</p><i title="T" i18n:attributes="title">${b}</i>',
+                '<div i18n:domain="d"><span i18n:translate="msg">A ${a}</span> ${thing} ${b}</div>',
+                '<p tal:content="thing">x</p><p tal:attributes="title b" i18n:translate="">plain</p>']
+
+
+def render_args_sequences(ctx):
+    """one instance, a sequence of render() calls that differ in translate= / target_language= / encoding=: every call returns what
+    the first call of a fresh instance with the same arguments returns"""
+    from chameleon import PageTemplate
+    n = 0
+    trs = [None, _tr_upper, _tr_brackets]
+    for _ in range(ctx.budget(60, 2000)):
+        src = ctx.rng.choice(RA_TEMPLATES)
+        ctor = ctx.rng.choice([{}, {'encoding': 'utf-8'}, {'encoding': 'latin-1'}, {'translate': _tr_brackets}])
+        seq = []
+        for _ in range(ctx.rng.randint(2, 4)):
+            kw = {}
+            t = ctx.rng.choice(trs)
+            if t is not None:
+                kw['translate'] = t
+            if ctx.rng.random() < 0.4:
+                kw['target_language'] = ctx.rng.choice(['de', 'fr'])
+            if ctx.rng.random() < 0.4:
+                kw['encoding'] = ctx.rng.choice(['utf-8', 'latin-1'])
+            seq.append(kw)
+
+        def call(t, kw):
+            try:
+                return t(a='Ann', b=b'b\xc3\xa9' if ('encoding' in kw or 'encoding' in ctor) else 'be', thing=_Thing(), **kw)
+            except Exception as e:
+                return 'raised %s' % type(e).__name__
+        shared = PageTemplate(src, **ctor)
+        for i, kw in enumerate(seq):
+            ctx.count('evaluations', 2)
+            got = call(shared, kw)
+            want = call(PageTemplate(src, **ctor), kw)
+            if got != want:
+                ctx.violation('something of an earlier render() call is visible in a later one: the call does not return what a fresh instance '
+                              'returns for the same arguments', {'src': src, 'constructor': sorted(ctor), 'calls': [sorted((k, getattr(v, '__name__', v)) for k, v in x.items()) for x in seq[:i + 1]]},
+                              expected=want, actual=got)
+                break
+        n += 1
+    return n
 
 
 def gated_interleavings(ctx):
